@@ -217,18 +217,24 @@ def s_labels_outlines():
 
 
 def s_cjk():
-    content = b"BT /J 12 Tf 30 700 Td <8ea98ea9> Tj /K 12 Tf 0 -20 Td <0041> Tj ET"
+    content = b"BT /J 12 Tf 30 700 Td <8ea98ea9> Tj /K 12 Tf 0 -20 Td <0041> Tj /L 12 Tf 0 -20 Td <30423044> Tj /M 12 Tf 0 -20 Td <0041> Tj ET"
     o = {
         1: {b"Type": Name(b"Catalog"), b"Pages": Ref(2, 0)},
         2: {b"Type": Name(b"Pages"), b"Kids": [Ref(3, 0)], b"Count": 1},
-        3: {b"Type": Name(b"Page"), b"Parent": Ref(2, 0), b"MediaBox": [0, 0, 612, 792], b"Contents": Ref(4, 0), b"Resources": {b"Font": {b"J": Ref(5, 0), b"K": Ref(8, 0)}}},
+        3: {b"Type": Name(b"Page"), b"Parent": Ref(2, 0), b"MediaBox": [0, 0, 612, 792], b"Contents": Ref(4, 0), b"Resources": {b"Font": {b"J": Ref(5, 0), b"K": Ref(8, 0), b"L": Ref(9, 0), b"M": Ref(12, 0)}}},
         4: content_stream(content),
+        # L: a vertical font of the Japan1 collection and M: a horizontal one of the Korea1 collection, both with a
+        # /ToUnicode stream (take the key away and the collection's own to-unicode table is loaded instead)
+        9: {b"Type": Name(b"Font"), b"Subtype": Name(b"Type0"), b"BaseFont": Name(b"VertJ"), b"Encoding": Name(b"UniJIS-UCS2-V"), b"DescendantFonts": [Ref(10, 0)], b"ToUnicode": Ref(11, 0)},
+        10: {b"Type": Name(b"Font"), b"Subtype": Name(b"CIDFontType0"), b"BaseFont": Name(b"VertJ"), b"CIDSystemInfo": {b"Registry": Str(b"Adobe"), b"Ordering": Str(b"Japan1"), b"Supplement": 2}, b"FontDescriptor": Ref(7, 0), b"DW": 1000},
+        11: content_stream(TOUNICODE16),
+        12: {b"Type": Name(b"Font"), b"Subtype": Name(b"Type0"), b"BaseFont": Name(b"HorK"), b"Encoding": Name(b"UniKS-UCS2-H"), b"DescendantFonts": [{b"Type": Name(b"Font"), b"Subtype": Name(b"CIDFontType0"), b"BaseFont": Name(b"HorK"), b"CIDSystemInfo": {b"Registry": Str(b"Adobe"), b"Ordering": Str(b"Korea1"), b"Supplement": 1}, b"FontDescriptor": Ref(7, 0), b"DW": 1000}], b"ToUnicode": Ref(11, 0)},
         5: {b"Type": Name(b"Font"), b"Subtype": Name(b"Type0"), b"BaseFont": Name(b"Ryumin-Light"), b"Encoding": Name(b"EUC-H"), b"DescendantFonts": [Ref(6, 0)]},
         6: {b"Type": Name(b"Font"), b"Subtype": Name(b"CIDFontType0"), b"BaseFont": Name(b"Ryumin-Light"), b"CIDSystemInfo": {b"Registry": Str(b"Adobe"), b"Ordering": Str(b"Japan1"), b"Supplement": 2}, b"FontDescriptor": Ref(7, 0), b"DW": 1000},
         7: {b"Type": Name(b"FontDescriptor"), b"FontName": Name(b"Ryumin-Light"), b"Flags": 6, b"FontBBox": [0, -200, 1000, 900], b"ItalicAngle": 0, b"Ascent": 880, b"Descent": -120, b"CapHeight": 700, b"StemV": 80},
         8: {b"Type": Name(b"Font"), b"Subtype": Name(b"Type0"), b"BaseFont": Name(b"Vert"), b"Encoding": Name(b"Identity-V"), b"DescendantFonts": [{b"Type": Name(b"Font"), b"Subtype": Name(b"CIDFontType2"), b"BaseFont": Name(b"Vert"), b"CIDSystemInfo": {b"Registry": Str(b"Adobe"), b"Ordering": Str(b"Identity"), b"Supplement": 0}, b"FontDescriptor": Ref(7, 0), b"DW2": [880, -1000], b"W2": [65, [-900, 500, 880], 70, 72, -800, 450, 900]}]},
     }
-    roles = {1: "Catalog", 2: "Pages", 3: "Page", 4: "ContentStream", 5: "Font:Type0", 6: "Font:CID", 7: "FontDescriptor", 8: "Font:Type0V"}
+    roles = {1: "Catalog", 2: "Pages", 3: "Page", 4: "ContentStream", 5: "Font:Type0", 6: "Font:CID", 7: "FontDescriptor", 8: "Font:Type0V", 9: "Font:Type0V:Japan1", 10: "Font:CID", 11: "ToUnicode", 12: "Font:Type0:Korea1"}
     return Seed("cjk", o, roles)
 
 
